@@ -3,6 +3,9 @@
 #include "system/ThreadPool.h"
 #include "system/WaitCondition.h"
 
+#ifdef MUSCLE_VERIF_HOOKS
+# include "support/VerifHooks.h"
+#endif
 namespace muscle {
 
 static Message _dummyMsg;
@@ -73,6 +76,9 @@ uint32 ThreadPool :: Shutdown()
    }
 
    // Do this part without holding _poolLock, to avoid potential deadlocks with the threads we are shutting down
+#ifdef MUSCLE_VERIF_HOOKS
+   MUSCLE_VERIF_POINT(MVH_POOL_BEFORE_SHUTDOWN, this, 0);
+#endif
    uint32 count = 0;
    while(true)  // probably paranoia
    {
@@ -129,7 +135,13 @@ void ThreadPool :: UnregisterClient(IThreadPoolClient * client)
       // The Put() call should never fail in practice because we called _waitingForCompletion.EnsureSize() earlier in RegisterClient()
       if ((DoesClientHaveMessagesOutstandingUnsafe(client))&&(_waitingForCompletion.Put(client, &waitCondition).IsOK())) doWait = true;
    }
+#ifdef MUSCLE_VERIF_HOOKS
+   if (doWait) MUSCLE_VERIF_POINT(MVH_POOL_UNREGISTER_BEFORE_WAIT, this, 0);
+#endif
    if (doWait) MLOG_ON_ERROR("ThreadPool::Wait()", waitCondition.Wait()); // block here (outside of the _poolLock) until we are notified, indicating that we can continue
+#ifdef MUSCLE_VERIF_HOOKS
+   if (doWait) MUSCLE_VERIF_POINT(MVH_POOL_UNREGISTER_AFTER_WAIT, this, 0);
+#endif
 
    // final cleanup
    DECLARE_MUTEXGUARD(_poolLock);
@@ -148,6 +160,9 @@ status_t ThreadPool :: ThreadPoolThread :: SendMessagesToInternalThread(IThreadP
    _internalQueue.SwapContents(mq);
 
    const status_t ret = SendMessageToInternalThread(DummyMessageRef(_dummyMsg));  // Send an empty Message, just to signal the internal thread
+#ifdef MUSCLE_VERIF_HOOKS
+   MUSCLE_VERIF_POINT(MVH_POOL_AFTER_DISPATCH, _threadPool, 0);
+#endif
    if (ret.IsOK()) return B_NO_ERROR;
    else
    {
@@ -173,6 +188,9 @@ status_t ThreadPool :: ThreadPoolThread :: MessageReceivedFromOwner(const Messag
 
    IThreadPoolClient * client = _currentClient;
    _currentClient = NULL; // we need _currentClient to be NULL when we call ThreadFinishedProcessingClientMessages()
+#ifdef MUSCLE_VERIF_HOOKS
+   MUSCLE_VERIF_POINT(MVH_POOL_BEFORE_HANDBACK, _threadPool, 0);
+#endif
    _threadPool->ThreadFinishedProcessingClientMessages(_threadID, client);
    return B_NO_ERROR;
 }
